@@ -29,7 +29,8 @@ StatNames == {"scans", "scans_baseline_last", "scans_baseline_ancestor", "scans_
               "cancel_took_effect", "cancel_no_effect", "stages", "stages_empty_request", "stages_compactable",
               "stages_filtered", "stages_nothing_required", "stage_errors", "stores_compared", "supplies",
               "supply_transmissions", "transitions", "transition_problem_runs", "transition_missing",
-              "transition_errors", "polls", "drift", "cases", "edits", "ops_accelerated_mode"}
+              "transition_errors", "polls", "drift", "cases", "edits", "ops_accelerated_mode",
+              "scans_ancestor_switched", "scans_populated_after_big_ancestor_switch"}
 ZeroStats == [n \in StatNames |-> 0]
 Bump(s, names) == [n \in StatNames |-> IF n \in names THEN s[n] + 1 ELSE s[n]]
 
@@ -37,8 +38,11 @@ NoState == [on |-> FALSE]
 
 CfgOf(r) == [limit |-> IF r.max > 0 THEN 1 ELSE 1000, readonly |-> r.readonly,
              watch |-> IF r.watch = "poll" THEN "poll" ELSE "none"]
+\* panc / pbig: kind of the ancestor of the previous scan and whether its serialisation
+\* spans more than one rsync block - while the client holds no snapshot bytes the
+\* ancestor IS the baseline, and it may change from call to call
 Begun(r) == [on |-> TRUE, cfg |-> CfgOf(r), ep |-> EpInit(CfgOf(r)), last |-> "none", dead |-> FALSE,
-             emptied |-> FALSE]
+             emptied |-> FALSE, panc |-> "", pbig |-> FALSE]
 
 HasAll(r, fs) == \A f \in fs : f \in DOMAIN r
 ResFields(ev) ==
@@ -137,6 +141,7 @@ Apply(s, r) ==
               got == r.r.err = "" /\ r.r.snap.content.k # "nil"
           IN [s EXCEPT !.ep = ep1, !.dead = Failed(r),
                        !.last = IF got THEN "set" ELSE @,
+                       !.panc = r.anc, !.pbig = ("ancbytes" \in DOMAIN r /\ r.ancbytes > 1024),
                        !.emptied = IF r.r.err = "" THEN r.r.snap.content.k = "nil" ELSE @])
     [] r.ev = "Stage" ->
          (LET o == Predicted(s, r) IN [s EXCEPT !.ep = LReceiveAll(o.st, o.st.pend), !.dead = Failed(r)])
@@ -155,6 +160,10 @@ Counters(s, r) ==
                  \cup (IF s.last = "set" THEN {"scans_baseline_last"}
                        ELSE IF r.ancnil THEN {"scans_baseline_ancestor_nil"} ELSE {"scans_baseline_ancestor"})
                  \cup (IF s.emptied THEN {"scans_after_empty_snapshot"} ELSE {})
+                 \cup (IF s.last = "none" /\ s.panc # "" /\ s.panc # r.anc THEN {"scans_ancestor_switched"} ELSE {})
+                 \cup (IF s.last = "none" /\ s.panc # "" /\ s.panc # r.anc /\ s.pbig
+                          /\ r.r.err = "" /\ r.r.snap.content.k # "nil"
+                       THEN {"scans_populated_after_big_ancestor_switch"} ELSE {})
                  \cup (IF r.r.err = "" /\ r.r.snap.content.k = "nil" THEN {"empty_snapshots"} ELSE {})
                  \cup (IF r.l.err # "" /\ r.l.again THEN {"scan_tryagain"} ELSE {})
                  \cup (IF r.l.err # "" THEN {"scan_errors"} ELSE {})
